@@ -274,7 +274,7 @@ def _get_condition_function(qubit_index, measurement_value):
     return condition
 
 
-def _map_qiskit_instr_to_pq(qiskit_instruction, modes, aux_modes):
+def _map_qiskit_instr_to_pq(qiskit_instruction, modes, aux_modes, qc):
     instruction_name = qiskit_instruction.name
     instructions = []
     if instruction_name == "h":
@@ -319,9 +319,11 @@ def _map_qiskit_instr_to_pq(qiskit_instruction, modes, aux_modes):
 
         cond = qiskit_instruction.operation.condition
 
-        condition = _get_condition_function(cond[0]._index, cond[1])
+        condition = _get_condition_function(qc.find_bit(cond[0]).index, cond[1])
         for inner_instr_qiskit in true_branch_instructions:
-            instr_list = _map_qiskit_instr_to_pq(inner_instr_qiskit, modes, aux_modes)
+            instr_list = _map_qiskit_instr_to_pq(
+                inner_instr_qiskit, modes, aux_modes, qc
+            )
             for instr in instr_list:
                 instructions.append(instr.when(condition))
     else:
@@ -373,7 +375,9 @@ def _encode_dual_rail_from_qiskit(qc):
             qubit = qubit_indices[0]
             modes = [2 * qubit, 2 * qubit + 1]
             aux_modes = []
-        mapped_instructions = _map_qiskit_instr_to_pq(instr_qiskit, modes, aux_modes)
+        mapped_instructions = _map_qiskit_instr_to_pq(
+            instr_qiskit, modes, aux_modes, qc
+        )
         instructions.extend(mapped_instructions)
 
     return instructions
